@@ -530,6 +530,29 @@ func (t *Topic) handleTopicTermination(sd *shutDown) {
 		s.detachSession(t.name)
 	}
 
+	// The topic stops reading its queues now. Release the sessions whose subscribe and leave
+	// requests are still queued: they are counted as in-flight and would block the session's
+	// cleanup forever; tell the requesters that the topic is gone.
+	now := types.TimeNow()
+	for len(t.reg) > 0 {
+		msg := <-t.reg
+		if msg.sess != nil {
+			if msg.sess.inflightReqs != nil {
+				msg.sess.inflightReqs.Done()
+			}
+			msg.sess.queueOut(ErrLockedReply(msg, now))
+		}
+	}
+	for len(t.unreg) > 0 {
+		msg := <-t.unreg
+		if msg.init && msg.sess != nil {
+			if msg.sess.inflightReqs != nil {
+				msg.sess.inflightReqs.Done()
+			}
+			msg.sess.queueOut(ErrLockedReply(msg, now))
+		}
+	}
+
 	usersRegisterTopic(t, false)
 
 	// Report completion back to sender, if 'done' is not nil.
